@@ -18,6 +18,7 @@ type Profile struct {
 	MaxCallers    int
 	EarlyReturn   int // -1 random, 0 false, 1 true
 	SharedCtx     bool
+	CtxHooks      bool // delays inside ctx.Err() of the callers' contexts
 }
 
 var (
@@ -238,6 +239,10 @@ func GenScenario(r *rand.Rand, p Profile) *Scenario {
 		pts = []string{"loop.received", "loop.drain_item", "send.before_acquire", "export.start", "export.before", "export.after", "export.before_respond"}
 	case "pre-enqueue":
 		pts = []string{"consume.before_enqueue", "multi.miss_before_lock"}
+	}
+	if p.CtxHooks && r.IntN(2) == 0 {
+		sc.CtxHooks = true
+		pts = append(pts, "ctx.Err")
 	}
 	if len(pts) > 0 && r.IntN(4) != 0 {
 		sc.HookDelays = map[string][]time.Duration{}
